@@ -219,7 +219,9 @@ def run(tier, seed):
     mrec = [x for x in r.records if "mats" in x]
     if not mrec:
         raise common.MachineryError("matrices for the QR split were not emitted")
-    us = [1.0, rng.uniform(0.3, 30.0)]
+    u2 = rng.uniform(0.3, 30.0)
+    # consecutive nearly equal cells (a strained grain of the same phase): stale per-cell caches would show
+    us = [1.0, u2, u2 * (1 + 3e-6), u2 * (1 - 2e-6)]
     res = common.pmap(worker, [(x, us) for x in recs])
     ncalls = 0
     for x, (n, out) in zip(recs, res):
